@@ -145,6 +145,14 @@ add("C19", "fault_enumeration", "DESIGN.md §2 C19",
     "os.chroot/chdir/setgroups/setregid/setreuid and pwd/grp lookups are replaced by recorders in the recorded cases; the "
     "real child needs euid 0 and is skipped (counted) otherwise")
 
+add("C15", "exploration", "DESIGN.md §2 C15",
+    "Hypothesis-generated items x sidecar subsets x multi-line printable content, requested with $, ! and +; oracle = "
+    "block-structure model (+INFO == plain menu line, +ADMIN, +VIEWS type/size, one block per sidecar with exactly its "
+    "lines, no unprefixed content line, exact length)",
+    "4k (quick) / 80k (thorough) directories of 1-4 items (files, HTML, directories, mbox; real and inside a ZIP), each "
+    "item's blocks parsed by an independent Gopher+ parser and compared with the sidecar files. Sampled.",
+    "printable sidecar content without trailing blanks (quantifier); stdlib mimetypes trusted for the type")
+
 NOT_APPLICABLE = []
 
 
